@@ -1,7 +1,7 @@
 """Property id -> rules, and the texts that go to MANIFEST / evidence."""
 from .rules import (
     optab, sign, role, memo, state, reord, handles, raw, domain, formats,
-    grammar, cyts, misc, hygiene, bounds, dtypes)
+    grammar, cyts, misc, hygiene, bounds, dtypes, attribution)
 
 PROPS = dict()
 NOT_BUILT = dict()
@@ -27,11 +27,16 @@ HYGIENE_TEXT = (
     'Iterable argument is traversed at most once on every path.')
 
 
+ATTR_TEXT = (
+    ' Findings of the rules of the other properties that lie in a function '
+    'reachable from this property\'s entry points are reported here too.')
+
+
 def prop(pid, rules, decides, not_decided, technique, cython=False):
     from . import scope
     if pid in scope.ENTRY:
-        rules = list(rules) + HYGIENE
-        decides = decides + HYGIENE_TEXT
+        rules = list(rules) + HYGIENE + [attribution.r_attributed]
+        decides = decides + HYGIENE_TEXT + ATTR_TEXT
     PROPS[pid] = dict(
         rules=rules, explanation=GENERIC + decides,
         not_decided=not_decided, technique=technique, cython=cython)
